@@ -140,8 +140,13 @@ def render_ini(rng, c, header, fp_header):
     delim = rng.choice([" = ", " = ", "=", " =", "= ", " : "])
     indent = rng.choice(["    ", "  ", "\t", "        "])
     out = []
-    if rng.random() < 0.4:
+    r = rng.random()
+    if r < 0.3:
         out += ["[metadata]", "name = demo", "version = attr: demo.__version__", ""]
+    elif r < 0.45:
+        # another tool's section whose header merely STARTS like bumpver's and that has its own current_version line
+        out += [rng.choice(["[bumpversion]", "[bumpversion]", "[bumpver_old]", "[pycalver2]", "[tool.bumpversion]"]),
+                "current_version" + delim + rng.choice(["0.0.1", '"0.0.1"', "2020.1", "1.2.3"]), "commit = True", ""]
     out.append(header)
     for k in ("current_version", "version_pattern", "commit_message", "tag_message", "tag_scope", "pre_commit_hook", "post_commit_hook"):
         if c[k] is not None:
@@ -166,8 +171,11 @@ def render_ini(rng, c, header, fp_header):
                 out.append(f["name"] + " =")
             for p in pats:
                 out.append(indent + p)
-    if rng.random() < 0.3:
+    r = rng.random()
+    if r < 0.25:
         out += ["", "[tool:pytest]", "addopts = -q"]
+    elif r < 0.35:
+        out += ["", "[bumpversion:file:setup.py]", "current_version = 0.0.1"]
     return "\n".join(out) + rng.choice(["\n", "", "\n\n"])
 
 
@@ -196,8 +204,11 @@ def toml_string(rng, s):
 def render_toml(rng, c, header, fp_header):
     delim = rng.choice([" = ", " = ", "=", " =  "])
     out = []
-    if rng.random() < 0.4:
+    r = rng.random()
+    if r < 0.3:
         out += ["[build-system]", 'requires = ["setuptools>=40", "wheel"]', ""]
+    elif r < 0.45:
+        out += [rng.choice(["[tool.bumpversion]", "[bumpversion]", "[tool.bumpver_old]", "[pycalver2]"]), 'current_version = "0.0.1"', "commit = true", ""]
     out.append(header)
     for k in ("current_version", "version_pattern", "commit_message", "tag_message", "tag_scope", "pre_commit_hook", "post_commit_hook"):
         if c[k] is not None:
@@ -298,6 +309,19 @@ def build_env(dirpath, fname, text, opts, file_keys, patterns):
     return {"valid": valid, "bad_patterns": bad, "exists": exists, "glob": globs}
 
 
+def own_lines(text, header):
+    """the current_version line(s) of the bumpver section itself (other tools' sections may have one too)"""
+    lines = text.splitlines()
+    k = lines.index(header) if header in lines else -1
+    out = []
+    for ln in lines[k + 1:]:
+        if ln.startswith("["):
+            break
+        if ln.startswith("current_version"):
+            out.append(ln)
+    return out
+
+
 def strip_unrelated(sections):
     return [s for s in sections if s[0].split(":")[0] in ("bumpver", "pycalver")]
 
@@ -346,7 +370,7 @@ def run_config(chk, driver, rng, c, stream, batch, p, assumed, oracle=True):
                 if oracle and kind == "cfg":
                     r = impl.cfg_init_in(p.dir)
                     code, out, exc = sandbox.run_cli(["show", "--no-fetch"], p.dir)
-                    own = [ln for ln in text.splitlines() if ln.startswith("current_version")]
+                    own = own_lines(text, header)
                     results.append({"format": header + " in " + fname, "file": fname, "text": text, "init": r, "show": [code, out, exc], "own_line": own[0] if own else None,
                                     "explicit_self": any(f["name"] == fname for f in cf["files"])})
                 continue
@@ -372,7 +396,7 @@ def run_config(chk, driver, rng, c, stream, batch, p, assumed, oracle=True):
             if oracle:
                 r = impl.cfg_init_in(p.dir)
                 code, out, exc = sandbox.run_cli(["show", "--no-fetch"], p.dir)
-                own = [ln for ln in text.splitlines() if ln.startswith("current_version")]
+                own = own_lines(text, header)
                 results.append({"format": header + " in " + fname, "file": fname, "text": text, "init": r, "show": [code, out, exc], "own_line": own[0] if own else None,
                                 "explicit_self": any(f["name"] == fname for f in cf["files"])})
         finally:
